@@ -101,7 +101,9 @@ ChkNext ==
                        obs |-> Obs(x.m), pre |-> last.obs]
     /\ hist' = Append(hist, e)
     /\ cfg' = cfg
-View == <<cfg, m, last>>
+\* the history itself is not part of a state's identity, but what Constr and Useful read from it is
+\* (otherwise the set of explored states would depend on which path TLC happens to find first)
+View == <<cfg, m, last, Len(hist), Count(hist, "restart")>>
 
 JudgeAccepts == last.okj
 InvEntry     == EntryBound(cfg, last.obs)
